@@ -217,6 +217,8 @@ def evaluate(check: Check, cases, pool=None):
         spans.append((len(reqs), len(reqs) + len(r)))
         reqs.extend(r)
     outs = common.run_model(reqs) if reqs else []
+    if reqs and not XCHECK_SAMPLE:
+        XCHECK_SAMPLE.extend(list(zip(reqs, outs)))
     results = []
     for case, (st, obs), (a, b) in zip(cases, res, spans):
         if st != "ok":
@@ -229,6 +231,52 @@ def evaluate(check: Check, cases, pool=None):
             fails = [Failure("tie", "judge-crash", traceback.format_exc()[-1500:])]
         results.append((case, obs, fails))
     return results
+
+
+XCHECK_SAMPLE = []
+
+
+def coq_val(v):
+    if isinstance(v, int):
+        return f"VI ({v})"
+    return "VL [" + "; ".join(coq_val(x) for x in v) + "]"
+
+
+def extraction_cross_check(check, rng, max_cases=24, max_chars=2500):
+    """DESIGN 3.2: re-evaluates a sample of this run's model requests INSIDE Coq (vm_compute on the very
+    definitions the theorems are about) and compares with what the extracted OCaml runner + driver.ml answered.
+    Returns (number checked, error or None)."""
+    cands = [(r, o) for r, o in XCHECK_SAMPLE
+             if len(common.to_sexp(r[1])) + len(common.to_sexp(o)) < max_chars]
+    if not cands:
+        return 0, None
+    sample = rng.sample(cands, min(max_cases, len(cands)))
+    lines = ["From JSL Require Import Base Commands.", "Open Scope Z_scope."]
+    for i, ((c, v), o) in enumerate(sample):
+        lines.append(f"Example xc_{i} : run_cmd ({c}) ({coq_val(common.norm(v))}) = {coq_val(o)}.")
+        lines.append("Proof. vm_compute. reflexivity. Qed.")
+    d = os.path.join(VERIF, ".scratch")
+    os.makedirs(d, exist_ok=True)
+    path = os.path.join(d, f"xcheck_{check.pid}_{os.getpid()}.v")
+    with open(path, "w") as f:
+        f.write("\n".join(lines) + "\n")
+    try:
+        p = subprocess.run(["coqc", "-Q", "model", "JSL", "-Q", "spec", "JSL", "-Q", "proofs", "JSL",
+                            "-Q", "properties", "JSL", "-Q", "extraction", "JSL", "-o", path[:-2] + ".vo", path],
+                           cwd=COQ, capture_output=True, text=True, timeout=600)
+        if p.returncode != 0:
+            return len(sample), (p.stdout + p.stderr)[-1500:]
+        return len(sample), None
+    finally:
+        for ext in (".v", ".vo", ".vok", ".vos", ".glob"):
+            try:
+                os.remove(path[:-2] + ext)
+            except OSError:
+                pass
+        try:
+            os.remove(os.path.join(d, "." + os.path.basename(path)[:-2] + ".aux"))
+        except OSError:
+            pass
 
 
 def load_known():
@@ -338,6 +386,10 @@ def run_check(check: Check, replay=None):
 
         violation = None
         searched = 0
+        xc_n, xc_err = extraction_cross_check(check, random.Random(check.seed + 5))
+        if xc_err:
+            tie_fail.append((None, Failure("tie", "extraction-cross-check",
+                                           "the extracted runner and vm_compute inside Coq disagree: " + xc_err)))
         if perr:
             tie_fail.append((None, Failure("tie", "proof-obligation", perr)))
         if not oracle_fail and tie_fail:
@@ -368,6 +420,7 @@ def run_check(check: Check, replay=None):
                 "no_failing_input_found": True,
                 "broken": ("theorem/property file " + info.get("theorem_file", "")
                            if f.subclaim == "proof-obligation" else
+                           "extraction: runner vs vm_compute" if f.subclaim == "extraction-cross-check" else
                            f"correspondence impl == model ({f.subclaim}) of {check.pid}"),
                 "oracle_only_cases_searched": searched})
             violation = f"VIOLATION property={check.pid} replay={path} no-failing-input-found"
@@ -405,6 +458,7 @@ def run_check(check: Check, replay=None):
             "known_findings_seen": [k["id"] for k in known_seen],
             "corpus_cases": len(corpus),
             "violation_search_cases": searched,
+            "extraction_cross_checked_in_coq": xc_n,
             "input_distribution": check.dist,
             "exhaustive": False,
         },
